@@ -47,6 +47,13 @@ def run(ctx, pid, mod):
         return
     for patch in seeds:
         name = os.path.basename(os.path.dirname(patch))
+        try:
+            meta = json.load(open(os.path.join(os.path.dirname(patch), "meta.json")))
+        except Exception:
+            meta = {}
+        if meta.get("detected") is False:
+            ctx.note("self-test %s: a stored regression the rules do NOT detect (outside the decided clauses: %s)" % (name, str(meta.get("caught_by", ""))[:200]))
+            continue
         tmp = tempfile.mkdtemp(prefix="sgself_", dir="/var/tmp")
         copy = os.path.join(tmp, "repo")
         try:
